@@ -605,6 +605,35 @@ func spliceUnknown(w *W, root *PMsg, in []byte) ([]byte, int) {
 	t := w.T
 	n := 1 + t.Intn(2, "unk.n")
 	for i := 0; i < n; i++ {
+		// sometimes the unknown record goes INTO a nested message (a singular message field, the element of
+		// a repeated message field or a message-typed map value): the record's length prefix is rewritten
+		if t.Chance(1, 2, "unk.nested") {
+			offs, nums := splitTopLevel(in)
+			var cands []int
+			for j := 0; j+1 < len(offs); j++ {
+				f := root.ByNum(nums[j])
+				if f == nil || f.K != pkMessage || f.Card == cMap {
+					continue
+				}
+				if _, wt, tn := protowire.ConsumeTag(in[offs[j]:]); tn > 0 && wt == protowire.BytesType {
+					cands = append(cands, j)
+				}
+			}
+			if len(cands) > 0 {
+				j := cands[t.Intn(len(cands), "unk.nested.which")]
+				_, _, tn := protowire.ConsumeTag(in[offs[j]:])
+				body, bn := protowire.ConsumeBytes(in[offs[j]+tn:])
+				if bn > 0 {
+					nb, _ := spliceUnknown1(w, root.ByNum(nums[j]).Msg, append([]byte{}, body...))
+					o := append([]byte{}, in[:offs[j]+tn]...)
+					o = protowire.AppendBytes(o, nb)
+					o = append(o, in[offs[j+1]:]...)
+					in = o
+					w.Count("unknown_in_nested_message")
+					continue
+				}
+			}
+		}
 		offs, nums := splitTopLevel(in)
 		var cands []int
 		for j, o := range offs {
@@ -622,6 +651,25 @@ func spliceUnknown(w *W, root *PMsg, in []byte) ([]byte, int) {
 		in = o
 	}
 	return in, n
+}
+
+// spliceUnknown1 inserts exactly one unknown record at a record boundary of msg (of message type m).
+func spliceUnknown1(w *W, m *PMsg, in []byte) ([]byte, int) {
+	t := w.T
+	offs, nums := splitTopLevel(in)
+	var cands []int
+	for j, o := range offs {
+		if j == 0 || j == len(offs)-1 || nums[j-1] != nums[j] {
+			cands = append(cands, o)
+		}
+	}
+	at := cands[len(cands)-1-t.Intn(len(cands), "unk.at")]
+	rec := unknownRecord(w, m)
+	o := make([]byte, 0, len(in)+len(rec))
+	o = append(o, in[:at]...)
+	o = append(o, rec...)
+	o = append(o, in[at:]...)
+	return o, 1
 }
 
 func boolStr(b bool) string {
